@@ -28,7 +28,8 @@ def run_comp(res, tier, seed, replay, mode, inputs, types='double', clause_filte
         trace = vlib.parallel_record(exe, lines, wd, 'comp', extra=['--modes', mode, '--types', types])
         ev = vlib.count_events(trace)
         res.cov['event_counts'] = ev
-        v = vlib.validate_trace('Trace_Comp', 'Trace_Comp.cfg', trace, start_event=None, env={'DIAGN': '4' if tier == 'quick' else '5'})
+        v = vlib.validate_trace('Trace_Comp', 'Trace_Comp.cfg', trace, start_event=None, env={'DIAGN': '4' if tier == 'quick' else '5'},
+                                timeout=3600 if tier == 'quick' else 3 * 3600)      # (thorough runs may share the machine with other checks)
         n = sum(ev.values())
         res.add_validation(v, n)
         if v.get('ndiag'):
@@ -208,7 +209,7 @@ def check_C14(res, tier, seed, replay):
     res.cov['exhaustive_space'] = 'all simple labelled graphs with <= %d vertices, weights {1,2} (TLC-enumerated): %d' % (N, ne)
     # small graphs in which equal-weight shortest paths with different numbers of edges are common (the isometric filter relies on
     # the mutual consistency of the trees exactly there; a lost tie-break shows on about one such graph in a thousand)
-    for _ in range(4000 if tier == 'quick' else 16000):
+    for _ in range(4000 if tier == 'quick' else 8000):
         n = rng.randint(5, 7) if tier == 'quick' else rng.randint(6, 7)      # (thorough: above the size limit of the model comparison)
         m = rng.randint(n, min(n * (n - 1) // 2, 10))
         ws = rng.choice([[1, 2], [1, 2, 3], [1, 2, 3]])
